@@ -214,17 +214,24 @@ func (runInfo *runInfoStruct) callExpr() {
 	runInfo.rv = nilValue
 
 	// useCallSlice lets us know to use CallSlice instead of Call because of the format of the args
+	if callExpr.Go {
+		debug := runInfo.options.Debug
+		go func() {
+			if !debug {
+				// a panic of the called function must not take the host down
+				defer func() { recover() }()
+			}
+			if useCallSlice {
+				f.CallSlice(args)
+			} else {
+				f.Call(args)
+			}
+		}()
+		return
+	}
 	if useCallSlice {
-		if callExpr.Go {
-			go f.CallSlice(args)
-			return
-		}
 		rvs = f.CallSlice(args)
 	} else {
-		if callExpr.Go {
-			go f.Call(args)
-			return
-		}
 		rvs = f.Call(args)
 	}
 
@@ -390,7 +397,8 @@ func (runInfo *runInfoStruct) makeCallArgs(rt reflect.Type, isRunVMFunction bool
 	// number of expressions
 	numExprs := len(callExpr.SubExprs)
 	// checks to short circuit wrong number of arguments
-	if (!rt.IsVariadic() && !callExpr.VarArg && numIn != numExprs) ||
+	if (callExpr.VarArg && numExprs < 1) ||
+		(!rt.IsVariadic() && !callExpr.VarArg && numIn != numExprs) ||
 		(rt.IsVariadic() && callExpr.VarArg && (numIn < numExprs || numIn > numExprs+1)) ||
 		(rt.IsVariadic() && !callExpr.VarArg && numIn > numExprs+1) ||
 		(!rt.IsVariadic() && callExpr.VarArg && numIn < numExprs) {
